@@ -130,6 +130,7 @@ var c10Triage = map[string]triage{
 	"getUnknownKeys#range(v.(*MapExp)#0.Value)":        {"append", "the only caller, expandForkFromObj, sorts the returned slice in place (sort.Strings) before any fork id is built; part.Range shares that backing array and is only used for membership and length", callerSorts("(*Fork).expandForkFromObj")},
 	"getUnknownKeys#range(v.(MarshalerMap)#0)":         {"append", "see getUnknownKeys (MapExp arm)", callerSorts("(*Fork).expandForkFromObj")},
 	"getUnknownKeys#range(v.(LazyArgumentMap)#0)":      {"append", "see getUnknownKeys (MapExp arm)", callerSorts("(*Fork).expandForkFromObj")},
+	"walkExp#range(exp.(*MapExp)#0.Value)":             {"first-match-return", "only an error returned by the visitor is passed on; the one visitor in the repository (graph.addEdgeBindings, reached from `mro graph`) inserts into a set and returns nil or SkipExp, so there is no error whose choice could depend on the order", nil},
 	"getUnknownKeys#range(local:m)":                    {"append", "see getUnknownKeys (MapExp arm)", callerSorts("(*Fork).expandForkFromObj")},
 }
 
@@ -152,6 +153,10 @@ func c10Scope(c *an.Ctx) (map[*ssa.Function]bool, []string) {
 	}
 	for _, n := range []string{"(*ForkIdSet).MakeForkIds", "(ForkId).ForkIdString", "(*Fork).expand", "(*Fork).writeInvocation", "BuildCallSource", "BuildCallAst"} {
 		add(pkgCore, n)
+	}
+	// `mro graph` renders the resolved call graph as text (round 7: its input trace printed in map order)
+	if p.Func("cmd/mro/graph", "Main") != nil {
+		add("cmd/mro/graph", "Main")
 	}
 	// every JSON encoder method of packages syntax and core
 	for _, pk := range []string{pkgSyntax, pkgCore} {
